@@ -253,6 +253,9 @@ def main(argv):
             "samples": [o["name"] for o in obligations][:40],
             "explanation": cfg.get("explanation", ""),
             "exhaustive": False,
+            "evaluations": sum(o.get("cases", 1) for o in obligations if o["status"] in ("discharged", "known-finding", "failed")),
+            "distinct_nontrivial": sum(o.get("cases", 1) for o in obligations if o["status"] == "discharged"),
+            "rule": "one evaluation per discharged verifier obligation (a function/lemma/harness verified for all inputs) plus, for native bounded stand-ins, one per distinct combination of small-domain values that satisfied the harness assumptions and was executed on the real code",
             "programs": cfg.get("programs", None),
         },
         "assumptions": sorted(assumptions),
